@@ -115,6 +115,35 @@ def run(prog):
     return obs, floors, {}
 
 
+def value_takers(prog):
+    """local helpers of format.rs that take the next positional value: they construct NotEnoughValues on the true edge of
+    is_empty() of their slice parameter and re-slice it from 1"""
+    out = set()
+    for p, g in prog.fns.items():
+        if not g.file.endswith("stdlib/format.rs") or g.kind == "Closure" or p == F + "format_arr":
+            continue
+        has_nev = False
+        for b in g.live_blocks:
+            for s in g.stmts(b):
+                if s[0] == "a" and s[2][0] == "agg" and s[2][3] == "NotEnoughValues":
+                    if any(strip(x[2][0])[0] == "call" and strip(x[2][0])[1].endswith("::is_empty") and x[2][1] is True for x in g.facts_at(b)):
+                        has_nev = True
+        reslice = any("RangeFrom" in " ".join(str(a) for a in (t.get("argtys") or [])) or "RangeFrom" in str(t.get("gargs")) for b, t in g.calls()
+                      if (t.get("fn") or "").endswith("Index::index") or "index" in (t.get("fn") or ""))
+        if has_nev and reslice:
+            out.add(p)
+    return out
+
+
+def consumes_value(node, takers):
+    for x in H.walk(node):
+        if H.tag(x) == "index":
+            return True
+        if H.tag(x) == "call" and (H.def_path(x[1]) or "") in takers:
+            return True
+    return False
+
+
 def check_format_arr(prog):
     obs = []
     f = prog.fn(F + "format_arr")
@@ -128,6 +157,12 @@ def check_format_arr(prog):
         for s in f.stmts(b):
             if s[0] == "a" and s[2][0] == "agg" and s[2][3] == "NotEnoughValues":
                 nev += 1
+    # a consumption point may be a call of a local helper that is handed `&mut values`: it counts if the helper itself reports
+    # NotEnoughValues on the is_empty edge
+    takers = value_takers(prog)
+    for b, t in f.calls():
+        if (t.get("res") or t.get("fn")) in takers and b in f.live_blocks and not f.is_cleanup(b):
+            nev += 1
     obs.append(ok(RULE, "format_arr:not-enough", st, "3 consumption points (* width, * precision, value) report NotEnoughValues") if nev >= 3 else
                bad(RULE, "format_arr:not-enough", st, "only %d of the 3 value-consumption points report NotEnoughValues on an exhausted value list" % nev))
     # (b) every successful return is dominated by the final `values.is_empty()` test
@@ -161,7 +196,7 @@ def check_format_arr(prog):
         for n in H.nodes(h["body"], "let"):
             bs = [b[0] for b in H.pat_binds(n[1])]
             if bs and bs[0] in ("width", "precision", "value") and n[2] is not None and H.tag(H.strip_try(n[2])) in ("match", "if") \
-                    and any(H.tag(x) == "index" for x in H.walk(n[2])):
+                    and consumes_value(n[2], takers):
                 if bs[0] not in order:
                     order.append(bs[0])
     obs.append(ok(RULE, key, st, "values are consumed for width, then precision, then the conversion") if order == ["width", "precision", "value"] else
@@ -173,7 +208,7 @@ def check_format_arr(prog):
         for n in H.nodes(h["body"], "if"):
             c = n[1]
             if H.tag(c) == "binary" and c[1] == "==" and any((H.def_path(x) or "").endswith("ConvTypeV::Percent") for x in H.walk(c) if H.tag(x) == "path"):
-                if not any(H.tag(x) == "index" for x in H.walk(n[2])):
+                if not consumes_value(n[2], takers):
                     good = True
     obs.append(ok(RULE, key, st, "%% does not consume a value") if good else bad(RULE, key, st, "the %% conversion consumes a value"))
     return obs
